@@ -418,6 +418,7 @@ pub fn spaces<'a>(prop: &'a str, thorough: bool, deadline: Instant, threads: usi
                 Op::AllocRem { extra: 1, align: 1 },
                 Op::Dealloc { sel: Sel::Newest },
                 Op::Enter(Region::Scoped),
+                Op::Enter(Region::ByValue),
                 Op::Exit,
                 Op::ExitUnwind,
             ];
